@@ -243,12 +243,15 @@ class FakeS3:
         try:
             self.point('s3-begin')
             fault = self.fault_plan(call) if self.fault_plan else None
+            if op == 'CompleteMultipartUpload':
+                extra = {'parts': self._listing(params)[1]}
             if fault is not None and not fault.after:
                 outcome = f'fault:{fault.kind}'
                 call['fault'] = fault
                 return self._fault_response(request, fault, call)
             try:
-                resp, extra = self._apply(op, request, params, call)
+                resp, extra2 = self._apply(op, request, params, call)
+                extra.update(extra2)
             except _S3Error as e:
                 outcome = f'err:{e.code}'
                 return self._error(request, e.status, e.code)
@@ -294,6 +297,9 @@ class FakeS3:
             return self._error(request, 403, 'AccessDenied', tag)
         if fault.kind == 'server':
             return self._error(request, 500, 'InternalError', tag)
+        if fault.kind == 'readtimeout':
+            from botocore.exceptions import ReadTimeoutError
+            raise ReadTimeoutError(endpoint_url=request.url)
         from botocore.exceptions import ConnectionClosedError
         raise ConnectionClosedError(endpoint_url=request.url)
 
@@ -475,34 +481,46 @@ class FakeS3:
             ex['crc32'] = part['crc32']
         return self._resp(request, 200, {}, body), ex
 
-    def _op_CompleteMultipartUpload(self, request, p, call):
-        m = self._mpu(p)
+    def _listing(self, p):
+        """What a Complete request lists, compared with what the service holds
+        (logged for every Complete request, applied or not)."""
+        m = self.mpus.get(p.get('UploadId'))
         listed = p.get('MultipartUpload', {}).get('Parts', [])
-        out = []
         plist = []
-        ok = True
         for ent in listed:
             n = ent.get('PartNumber')
-            part = m['parts'].get(n)
-            rec = {'n': n, 'etag_ok': False, 'crc_ok': True}
-            if part is None:
-                ok = False
-            else:
+            part = m['parts'].get(n) if m else None
+            rec = {'n': n, 'etag_ok': False, 'crc_ok': True, 'known': False}
+            if part is not None:
+                rec['known'] = True
                 rec['etag_ok'] = ent.get('ETag') == part['etag']
                 if 'crc32' in part:
                     rec['crc_ok'] = ent.get('ChecksumCRC32') == part['crc32']
                 rec['loc'] = part['loc']
-                out.append(part['data'])
             plist.append(rec)
+        return listed, plist
+
+    def _op_CompleteMultipartUpload(self, request, p, call):
+        listed, plist = self._listing(p)
+        m = self.mpus.get(p.get('UploadId'))
+        if m is not None and m['state'] == 'completed' \
+                and m.get('completed_with') == [e.get('PartNumber') for e in listed]:
+            # S3 answers a repeated Complete of a completed upload again
+            # with success (the client may have retried after a lost reply)
+            body = m['complete_body']
+            return self._resp(request, 200, {}, body), {'parts': plist,
+                                                         'repeat': True}
+        m = self._mpu(p)
         nums = [e.get('PartNumber') for e in listed]
-        if not ok or nums != sorted(nums) or len(set(nums)) != len(nums) \
-                or not listed:
+        if not all(r['known'] for r in plist) or nums != sorted(nums) \
+                or len(set(nums)) != len(nums) or not listed:
             raise _S3Error(400, 'InvalidPart')
         if not all(r['etag_ok'] for r in plist):
             raise _S3Error(400, 'InvalidPart')
-        data = b''.join(out)
+        data = b''.join(m['parts'][n]['data'] for n in nums)
         m['state'] = 'completed'
         m['completed'] = m.get('completed', 0) + 1
+        m['completed_with'] = nums
         self.objects[(m['bucket'], m['key'])] = data
         self.object_meta[(m['bucket'], m['key'])] = {
             'via': 'mpu', 'seq': call['seq'], 'parts': plist}
@@ -511,6 +529,7 @@ class FakeS3:
                 '<Bucket>%s</Bucket><Key>%s</Key><ETag>"mpu"</ETag>'
                 '</CompleteMultipartUploadResult>' % (
                     escape(m['bucket']), escape(m['key']))).encode()
+        m['complete_body'] = body
         return self._resp(request, 200, {}, body), {'parts': plist}
 
     def _op_AbortMultipartUpload(self, request, p, call):
